@@ -105,6 +105,7 @@ func c02ProgOracle(e *progEnv, res *progStepResult) (sig, what string, descend b
 }
 
 func replayC02(raw json.RawMessage) (string, error) {
+	cpuDirtIRQ = true
 	var pp progPath
 	if json.Unmarshal(raw, &pp) == nil && len(pp.Syms) > 0 {
 		return progReplay(pp, progSeeds(true), progAlphabetInt(), false, c02ProgOracle)
@@ -121,6 +122,7 @@ func replayC02(raw json.RawMessage) (string, error) {
 }
 
 func runC02(r *report.Run) {
+	cpuDirtIRQ = true
 	o := cpuSweepOpts{thorough: r.Tier == "thorough", withE: true, withInt: true, seed: r.Seed}
 	var nontriv, total int64
 	counts := cpuEnumerate(o, nil, func(x *cpuCtx, c *cpuCase) {
